@@ -10,6 +10,7 @@ import AnonCreds.Model.Issue
 import AnonCreds.Model.Codecs
 import AnonCreds.Model.Membership
 import AnonCreds.Model.Create
+import AnonCreds.Proofs.CreatePlan
 import AnonCreds.Model.Lin
 /-
 Line-protocol driver: one request per line on stdin, one reply per line on stdout.
@@ -516,7 +517,7 @@ def createOp (toks : List String) : Option String :=
   let optInt : String → Option (Option Int) := fun s => if s = "-" then some none else (s.toInt?).map some
   match toks with
   | [op, creds, stmts] =>
-    if op != "cr.ok" && op != "cr.proofs" then none else
+    if op != "cr.ok" && op != "cr.proofs" && op != "tr.markers" then none else
     let cred? : String → Option (String × CredI) := fun tok =>
       match tok.splitOn "/" with
       | [k, "M"] => some (k, .membership)
@@ -545,7 +546,11 @@ def createOp (toks : List String) : Option String :=
       | _ => none
     match (entries creds).mapM cred?, (entries stmts).mapM stmt? with
     | some creds, some stmts =>
-      if op == "cr.ok" then some (toString (createOk creds stmts))
+      if op == "tr.markers" then
+        let j : List String → String := fun l => if l.isEmpty then "-" else ",".intercalate l
+        some ("P:" ++ j (createMarkers creds stmts) ++ " V:" ++
+          j (AC.Verify.verifyMarkers (stmts.map (AC.CreatePlan.toV fun _ => []))))
+      else if op == "cr.ok" then some (toString (createOk creds stmts))
       else some (match createProofs creds stmts with
         | none => "err"
         | some ps =>
